@@ -58,6 +58,15 @@ fn main() {
         }
         std::process::exit(0);
     }
+    if prop == "C04-digest-worker" {
+        let tier = if args.get(2).map(|s| s.as_str()) == Some("thorough") { Tier::Thorough } else { Tier::Quick };
+        let dump = if args.get(3).map(|s| s.as_str()) == Some("dump") { Some((args[4].clone(), args[5].clone())) } else { None };
+        std::process::exit(c04::digest_worker(tier, dump));
+    }
+    if prop == "C04-mem-worker" {
+        let tier = if args[2] == "thorough" { Tier::Thorough } else { Tier::Quick };
+        std::process::exit(c04::mem_worker(tier, args[3].parse().unwrap(), args[4].parse().unwrap()));
+    }
     if prop == "audit" {
         std::process::exit(c_docs::audit_model());
     }
